@@ -7,6 +7,9 @@ ENGINES = [
 ]
 
 PHASES = {
+    "C08": [
+        {"pkg": "e1", "test": "TestC08Convergence", "phase": "C08/convergence"},
+    ],
     "C10": [
         {"pkg": "e1", "test": "TestC10FullState", "phase": "C10/full-state-exchange"},
     ],
@@ -29,6 +32,12 @@ PHASES = {
 }
 
 META = {
+    "C08": {
+        "engine": "E1-seqx",
+        "technique": "exhaustive enumeration of update sets x delivery permutations x batchings x duplications on the real merge code vs a newest-entry-wins reference",
+        "text": "Update sets of up to 4 (quick) / 5 (thorough) broadcasts produced by the real mutators on two origins (clock offset 0 / -2.5 / +2.5 ticks, origins synchronised or not) for sessions, subscriptions, retained messages and a mixed alphabet; every permutation x contiguous batching and every single duplication is delivered to a fresh replica; replicas and both origins must list the per-key newest entry, removed entries staying removed.",
+        "note": "Ties between different values of one key at one timestamp are excluded (the logical clock is strictly increasing; offsets are not multiples of a tick). Batches are formed by concatenating the protobuf events.",
+    },
     "C10": {
         "engine": "E1-seqx",
         "technique": "exhaustive enumeration of node-history pairs x lost-gossip subsets x snapshot exchange modes on the real replicated state vs a newest-entry-wins reference",
